@@ -400,6 +400,7 @@ class SimDevice(object):
         self.refuse_open = lambda dest: False
         self.held_streams = []
         self.hold_next_open = False
+        self.budget = None           # number of packets the device may still send before it falls silent (C11)
         self.syms_of = None          # callable(payload) -> list of symbol codes (model-scale scenarios)
 
     # -- bookkeeping
@@ -564,6 +565,10 @@ class SimDevice(object):
         r = self.ready()
         if not r:
             return False
+        if self.budget is not None:
+            if self.budget <= 0:
+                return False
+            self.budget -= 1
         c = self.chooser.pick('dev_next', [(x[0], x[1]) for x in r])
         self.emit(next(x for x in r if (x[0], x[1]) == c))
         return True
